@@ -741,4 +741,110 @@ theorem C13_decoder_selection :
     decoderFor (some "br") = some .br ∧ decoderFor (some "deflate") = some .deflate ∧
     decoderFor (some "zstd") = some .zstd := by decide
 
+/-! ### the driver's streaming store-decoder obeys the decompressor law -/
+
+/-- what `toyCodec` makes of a body -/
+def toyImage (orig : Bytes) : Bytes := [0x54] ++ orig ++ [UInt8.ofNat (orig.length % 256)]
+
+theorem C13_aux_toyImage (orig : Bytes) : encRest toyCodec toyCodec.init [orig] = toyImage orig := by
+  rw [C13_aux_toy_encRest]; simp [toyCodec, toyImage]
+
+theorem C13_aux_fold_none (bs : Bytes) : bs.foldl toyDecStep none = none := by
+  induction bs with
+  | nil => rfl
+  | cons x t ih => simpa [toyDecStep] using ih
+
+theorem C13_aux_fold_shift (bs : Bytes) : ∀ (acc : Bytes) (s : ToyDec),
+    bs.foldl toyDecStep (some (acc, s)) =
+      (bs.foldl toyDecStep (some ([], s))).map (fun r => (r.1 ++ acc, r.2)) := by
+  induction bs with
+  | nil => intro acc s; simp
+  | cons x t ih =>
+    intro acc s
+    simp only [List.foldl_cons]
+    cases hs : toyDecStep (some ([], s)) x with
+    | none =>
+      have : toyDecStep (some (acc, s)) x = none := by
+        simp only [toyDecStep] at hs ⊢
+        split at hs <;> simp_all
+        split at hs <;> simp_all
+      rw [this, C13_aux_fold_none]; simp
+    | some r =>
+      obtain ⟨a0, s'⟩ := r
+      have : toyDecStep (some (acc, s)) x = some (a0 ++ acc, s') := by
+        simp only [toyDecStep] at hs ⊢
+        split at hs
+        · split at hs <;> simp_all
+        · split at hs <;> simp_all
+          obtain ⟨h1, h2⟩ := hs
+          subst h1; simp
+      rw [this, ih (a0 ++ acc) s', ih a0 s']
+      cases t.foldl toyDecStep (some ([], s')) <;> simp
+
+theorem C13_aux_feed_append (s : ToyDec) (a b : Bytes) :
+    toyDCodec.feed s (a ++ b) =
+      match toyDCodec.feed s a with
+      | none => none
+      | some r => (toyDCodec.feed r.2 b).map (fun r' => (r.1 ++ r'.1, r'.2)) := by
+  simp only [toyDCodec, List.foldl_append]
+  cases h : a.foldl toyDecStep (some ([], s)) with
+  | none => simp [C13_aux_fold_none]
+  | some r =>
+    obtain ⟨acc1, s1⟩ := r
+    rw [C13_aux_fold_shift b acc1 s1]
+    cases hw : List.foldl toyDecStep (some ([], s1)) b with
+    | none => simp [hw]
+    | some w => simp [hw]
+
+theorem C13_aux_decRest_toy (xs : List Bytes) : ∀ s : ToyDec,
+    decRest toyDCodec s xs =
+      match toyDCodec.feed s xs.flatten with
+      | none => none
+      | some r => (toyDCodec.feedEof r.2).map (r.1 ++ ·) := by
+  induction xs with
+  | nil => intro s; simp [decRest, toyDCodec]
+  | cons x t ih =>
+    intro s
+    simp only [decRest, List.flatten_cons, C13_aux_feed_append]
+    cases hx : toyDCodec.feed s x with
+    | none => rfl
+    | some r =>
+      simp only [ih r.2]
+      cases toyDCodec.feed r.2 t.flatten with
+      | none => rfl
+      | some r' =>
+        simp only [Option.map_some]
+        cases toyDCodec.feedEof r'.2 <;> simp
+
+theorem C13_aux_fold_held (m : Bytes) (t : UInt8) : ∀ (acc : Bytes) (y : UInt8) (n : Nat),
+    (m ++ [t]).foldl toyDecStep (some (acc, ⟨true, some y, n⟩)) =
+      some ((y :: m).reverse ++ acc, ⟨true, some t, n + m.length + 1⟩) := by
+  induction m with
+  | nil => intro acc y n; simp [toyDecStep]
+  | cons x m ih =>
+    intro acc y n
+    simp only [List.cons_append, List.foldl_cons, toyDecStep]
+    simp only [Bool.not_true, Bool.false_eq_true, ↓reduceIte]
+    rw [ih]
+    simp [Nat.add_assoc, Nat.add_comm 1]
+
+theorem C13_aux_feed_image (orig : Bytes) :
+    toyDCodec.feed toyDCodec.init (toyImage orig) =
+      some (orig, ⟨true, some (UInt8.ofNat (orig.length % 256)), orig.length⟩) := by
+  cases orig with
+  | nil => simp [toyDCodec, toyImage, toyDecStep]
+  | cons b m =>
+    simp only [toyDCodec, toyImage, List.cons_append, List.nil_append, List.foldl_cons, toyDecStep]
+    simp only [Bool.not_false, ↓reduceIte, BEq.rfl, Bool.not_true, Bool.false_eq_true]
+    rw [C13_aux_fold_held]
+    simp
+
+/-- **C13_toy_dec_lossless**: the streaming store-decoder of the line driver is lawful for the
+store-codec's image, under every cut of that image (the hypothesis of `C13_request_decoded` is
+satisfiable by a decoder that really buffers, holds bytes back and checks a trailer). -/
+theorem C13_toy_dec_lossless : DecLossless toyDCodec toyImage := by
+  intro orig xs h
+  rw [C13_aux_decRest_toy, h, C13_aux_feed_image]
+  simp [toyDCodec]
+
 end ActixModel.C13
